@@ -214,7 +214,7 @@ func run() int {
 					anyFn = sp.Func("init")
 				}
 			}
-			ex := &Exec{prog: l.prog, db: db, fset: l.prog.Fset, maxPaths: 10, loopCache: map[*ssa.Function]*LoopInfo{}, usedUnknown: map[string]bool{}, usedContracts: map[string]bool{}, prop: prop, siteOrd: map[*ssa.Function]map[ssa.Instruction]int{}}
+			ex := &Exec{prog: l.prog, db: db, fset: l.prog.Fset, maxPaths: 10, loopCache: map[*ssa.Function]*LoopInfo{}, usedUnknown: map[string]bool{}, usedContracts: map[string]bool{}, prop: prop, siteOrd: map[*ssa.Function]map[ssa.Instruction]int{}, trackCache: map[*Contract]map[string]bool{}}
 			curLemmaKey = k
 			ex.verifySpecLemma(c, tpkg, anyFn)
 			curLemmaKey = ""
@@ -232,7 +232,7 @@ func run() int {
 			rep.Missing = append(rep.Missing, MissingFn{Key: k, Props: c.propList(), File: c.File})
 			continue
 		}
-		ex := &Exec{prog: l.prog, db: db, fset: l.prog.Fset, maxPaths: 4000, loopCache: map[*ssa.Function]*LoopInfo{}, usedUnknown: map[string]bool{}, usedContracts: map[string]bool{}, prop: prop, siteOrd: map[*ssa.Function]map[ssa.Instruction]int{}}
+		ex := &Exec{prog: l.prog, db: db, fset: l.prog.Fset, maxPaths: 4000, loopCache: map[*ssa.Function]*LoopInfo{}, usedUnknown: map[string]bool{}, usedContracts: map[string]bool{}, prop: prop, siteOrd: map[*ssa.Function]map[ssa.Instruction]int{}, trackCache: map[*Contract]map[string]bool{}}
 		if c.PathCap > 0 {
 			ex.maxPaths = c.PathCap
 		}
@@ -266,6 +266,50 @@ func run() int {
 					}
 				}
 			}
+		}
+	}
+	// C20: no package-level variable of the library packages is written
+	// outside package initialisation (per-call state only)
+	if (prop == "" || prop == "C20") && *flagFn == "" {
+		for _, sp := range l.spkgs {
+			if sp == nil || !strings.HasPrefix(sp.Pkg.Path(), repoPrefix) || strings.Contains(sp.Pkg.Path(), "/cmd/") {
+				continue
+			}
+			var writes []string
+			for fn := range ssautil.AllFunctions(l.prog) {
+				if fn.Pkg != sp && !(fn.Parent() != nil && fn.Parent().Pkg == sp) {
+					continue
+				}
+				if fn.Name() == "init" || strings.HasPrefix(fn.Name(), "init#") {
+					continue
+				}
+				if fn.Syntax() != nil {
+					if pos := l.prog.Fset.Position(fn.Pos()); strings.HasSuffix(pos.Filename, "_test.go") {
+						continue
+					}
+				}
+				for _, b := range fn.Blocks {
+					for _, ins := range b.Instrs {
+						if st, ok := ins.(*ssa.Store); ok {
+							if g, ok := st.Addr.(*ssa.Global); ok {
+								writes = append(writes, fn.String()+" writes "+g.Name())
+							}
+						}
+					}
+				}
+			}
+			sort.Strings(writes)
+			ck := &Check{Name: sp.Pkg.Path() + "/globals#readonly", Class: "frame", Fn: sp.Pkg.Path(), Props: []string{"C20"},
+				Info: "no function of the package assigns a package-level variable outside init", Goal: "false"}
+			st := "trivial"
+			ck.Trivial = true
+			out := ""
+			if len(writes) > 0 {
+				st = "failed"
+				ck.Trivial = false
+				out = strings.Join(writes, "; ")
+			}
+			rep.Extra = append(rep.Extra, &CheckResult{Check: ck, Status: st, Solver: "ssa-scan", Output: out, Model: out})
 		}
 	}
 	// package-level initialisers pinned to literals
